@@ -400,8 +400,8 @@ def cases_for_program(rng, p, tier, heavy=True):
                     c = base_case(p, n, data, 'solve_period', i, max_iter=rng.choice([1, 2, 3]), failures=rng.choice(['raise', 'ignore']),
                                   errors=rng.choice(['raise', 'skip', 'ignore', 'replace']), catch_first_error=rng.random() < 0.6)
                     c['span_kind'], c['labels'], c['label'] = kind, labels, None
-                    if rng.random() < 0.2:
-                        c['opts']['offset'] = rng.choice([-1, 1])
+                    if rng.random() < 0.25:
+                        c['opts']['offset'] = rng.choice([-1, 1, -2, 2, -i, n - 1 - i, -i - 1, n - i])
                     cases.append(c)
                 c = base_case(p, n, data, 'solve_period', 0, max_iter=2)
                 c['span_kind'], c['labels'], c['label'] = kind, labels, min(labels) - 7
@@ -424,14 +424,14 @@ def cases_for_program(rng, p, tier, heavy=True):
                 c['opts']['min_iter'] = rng.randint(1, c['opts']['max_iter'])
             c['start'], c['end'] = a, b
             if heavy and rng.random() < 0.15:
-                c['opts']['offset'] = rng.choice([-1, 1])
+                c['opts']['offset'] = rng.choice([-1, 1, -2, 2, -n, n - 1])
             if heavy and rng.random() < 0.05:
                 c['opts']['min_iter'] = c['opts']['max_iter'] + 1
             if heavy and rng.random() < 0.12:
                 c = with_instance_override(rng, c, L, Ld, n) or c
             cases.append(c)
         # (d) the Fortran engine (frame / rejection / feasibility clauses; conditionals are not Fortran)
-        if heavy and n == lens[0] and ' if ' not in '\n'.join(p.lines):
+        if heavy and n in (lens[0], lens[2]) and ' if ' not in '\n'.join(p.lines):
             for t in range(-n, n):
                 c = base_case(p, n, data, 'solve_t', t, max_iter=rng.choice([1, 2, 3]), failures='ignore',
                               errors=rng.choice(['raise', 'raise', 'skip', 'ignore', 'replace']))
@@ -441,7 +441,7 @@ def cases_for_program(rng, p, tier, heavy=True):
                 u = rng.random()
                 if u < 0.25:
                     c2 = copy.deepcopy(c)
-                    c2['opts']['offset'] = rng.choice([-1, 1, -pp - 1, n - pp])
+                    c2['opts']['offset'] = rng.choice([-1, 1, -2, 2, -pp, n - 1 - pp, -pp - 1, n - pp])
                     cases.append(c2)
                 elif u < 0.4:
                     c2 = copy.deepcopy(c)
@@ -459,12 +459,28 @@ def cases_for_program(rng, p, tier, heavy=True):
                     c2 = with_instance_override(rng, c, L, Ld, n)
                     if c2 is not None:
                         cases.append(c2)
-            for a, b in [(None, None), (0, None), (None, n - 1)]:
+            fkind = rng.choice([None, None, 'range', 'array', 'index', 'tuple'])
+            flabels = list(range(7, 7 + n))
+            for a, b in [(None, None), (0, None), (None, n - 1)] + [(rng.choice([None] + list(range(n))), rng.choice([None] + list(range(n)))) for _ in range(2)]:
                 c = base_case(p, n, data, 'solve', 0, max_iter=2, failures='ignore', errors=rng.choice(['raise', 'raise', 'skip', 'ignore', 'replace']))
                 c['start'], c['end'], c['engine'] = a, b, 'fortran'
+                if fkind:
+                    c['span_kind'], c['labels'] = fkind, flabels
+                if rng.random() < 0.3:
+                    c['opts']['offset'] = rng.choice([-2, -1, 1, 2])
                 if a is None and b is None and rng.random() < 0.3:
                     c = with_instance_override(rng, c, L, Ld, n) or c
                 cases.append(c)
+            # FortranEngine + solve_period(label) on every span type, every position and an unknown label
+            if n == lens[2] or rng.random() < 0.3:
+                kind = fkind or rng.choice(['list', 'range', 'array', 'index'])
+                for i in list(range(n)) + [None]:
+                    c = base_case(p, n, data, 'solve_period', i if i is not None else 0, max_iter=rng.choice([1, 2]), failures='ignore',
+                                  errors=rng.choice(['raise', 'skip', 'ignore', 'replace']))
+                    c['engine'], c['span_kind'], c['labels'], c['label'] = 'fortran', kind, flabels, (None if i is not None else 3)
+                    if rng.random() < 0.25:
+                        c['opts']['offset'] = rng.choice([-2, -1, 1, 2])
+                    cases.append(c)
             # FortranEngine._evaluate(t): every t in both spellings and one step beyond each end of the span
             for t in range(-n - 1, n + 1):
                 if rng.random() < 0.6:
@@ -622,7 +638,7 @@ def impl_fortran(case):
     class F(FT.FortranEngine, Model):
         ENGINE = eng
     n = case['n']
-    span = ['p%d' % i for i in range(n)]
+    span = make_span(case)
     m = F(span)
     for nm in names:
         if nm in case['data']:
@@ -643,12 +659,17 @@ def impl_fortran(case):
             out = ['ret', None]
         elif case['entry'] == 'solve_t':
             out = ['ret', [bool(m.solve_t(case['t'], **kw))]]
+        elif case['entry'] == 'solve_period':
+            lab = case['label'] if case.get('label') is not None else span[case['t']]
+            lab = lab.item() if hasattr(lab, 'item') else lab
+            out = ['ret', [bool(m.solve_period(lab, **kw))]]
         else:
             skw = dict(kw)
             if case['start'] is not None:
                 skw['start'] = span[case['start']]
             if case['end'] is not None:
                 skw['end'] = span[case['end']]
+            skw = {k: (v.item() if k in ('start', 'end') and hasattr(v, 'item') else v) for k, v in skw.items()}
             labels, indexes, solved = m.solve(**skw)
             out = ['ret', [bool(x) for x in solved], [int(i) for i in indexes], [str(x) for x in labels]]
     except Exception as e:
